@@ -203,6 +203,14 @@ theorem invTok_step (s : St) (ev : Ev) (s' : St) (hi : InvTok s) (h : step s ev 
         simp_all [InvTok, tokens]
       · simp at h
     · simp at h
+  | ebadf =>
+    simp only [step] at h
+    split at h
+    · split at h
+      · simp only [Option.some.injEq] at h; subst h
+        simp_all [InvTok, tokens]
+      · simp at h
+    · simp at h
   | report res =>
     simp only [step] at h
     split at h
@@ -474,6 +482,17 @@ theorem invWake_step (s : St) (ev : Ev) (s' : St) (hi : InvTok s) (hw : InvWake 
         exact hw2 b (Or.inl hb)
       · simp at h
     · simp at h
+  | ebadf =>
+    simp only [step] at h
+    split at h
+    · split at h
+      · simp only [Option.some.injEq] at h; subst h
+        refine ⟨hw1, ?_⟩
+        intro b hb
+        simp only [reduceCtorEq, or_false] at hb
+        exact hw2 b (Or.inl hb)
+      · simp at h
+    · simp at h
   | report res =>
     simp only [step] at h
     split at h
@@ -625,6 +644,13 @@ theorem invClose_step (s : St) (ev : Ev) (s' : St) (hi : InvClose s) (h : step s
       · simp only [Option.some.injEq] at h; subst h; exact hi
       · simp at h
     · simp at h
+  | ebadf =>
+    simp only [step] at h
+    split at h
+    · split at h
+      · simp only [Option.some.injEq] at h; subst h; exact hi
+      · simp at h
+    · simp at h
   | report res =>
     simp only [step] at h
     split at h
@@ -765,6 +791,13 @@ theorem invExit_step (s : St) (ev : Ev) (s' : St) (hi : InvExit s) (h : step s e
       · simp only [Option.some.injEq] at h; subst h; intro hx; simp at hx
       · simp at h
     · simp at h
+  | ebadf =>
+    simp only [step] at h
+    split at h
+    · split at h
+      · simp only [Option.some.injEq] at h; subst h; intro hx; simp at hx
+      · simp at h
+    · simp at h
   | report res =>
     simp only [step] at h
     split at h
@@ -840,6 +873,42 @@ theorem stale_select_returns (s : St) (hr : Reach s) (a : Sets) (h : s.spc = .se
     | cons x xs => simp [Sets.isEmpty, hr']
   refine ⟨{ s with spc := .selected (selectResult s a) }, ?_⟩
   simp [step, h, hne]
+
+/-! ### the EBADF / WSAENOTSOCK recovery branch of `_run_select` -/
+
+theorem stale_ne_current (s : St) (a : Sets) (h : stale s a = true) : a ≠ current s := by
+  intro heq
+  subst heq
+  simp [stale, current] at h
+
+/-- **ebadf_recovers**: when `select` fails because a captured fd has been closed — such an fd is no longer registered,
+and `remove_reader/remove_writer` had returned, i.e. its wake-up had been sent, before it was closed — the poll of the
+waker alone finds it readable: the recovery branch is taken, the `raise` branch (selector thread dies) is not. -/
+theorem ebadf_recovers (s : St) (hr : Reach s) (a : Sets) (h : s.spc = .selecting a) (hst : stale s a = true)
+    (hp : s.pendingWake = false) : ∃ s', step s .ebadf = some s' ∧ s'.spc = .selected recovered := by
+  have hb : s.bytes > 0 := by
+    rcases wake_invariant s hr a (Or.inr h) (stale_ne_current s a hst) with hb | hb
+    · exact hb
+    · rw [hp] at hb; exact absurd hb (by simp)
+  exact ⟨{ s with spc := .selected recovered }, by simp [step, h, hst, hb], rfl⟩
+
+/-- **ebadf_round**: the recovery must *return to the event loop*: with the loop thread between callbacks, the
+recovered (empty) result is reported, `_handle_select` runs over it without dispatching anything and posts the next
+select with the current registrations — the token is back in `_select_args`, the selector thread can take it.
+(A recovery that went back to waiting on the condition instead would leave `_select_args` empty for ever: only
+`_handle_select` calls `_start_select`.) -/
+theorem ebadf_round (s : St) (hr : Reach s) (a : Sets) (h : s.spc = .selecting a) (hst : stale s a = true)
+    (hl : s.lpc = .running) (hp : s.pendingWake = false) :
+    ∃ s', run s [.ebadf, .report recovered, .handleBegin recovered, .post (current s)] = some s' ∧
+      s'.args = some (current s) ∧ s'.spc = .idle ∧ s'.lpc = .running ∧ s'.failed = false := by
+  have hb : s.bytes > 0 := by
+    rcases wake_invariant s hr a (Or.inr h) (stale_ne_current s a hst) with hb | hb
+    · exact hb
+    · rw [hp] at hb; exact absurd hb (by simp)
+  obtain ⟨ha, hq, -⟩ := at_most_one_select s hr (by simp [h])
+  have hf := assert_never_fails s hr
+  refine ⟨{ s with spc := .idle, args := some (current s) }, ?_, rfl, rfl, hl, hf⟩
+  simp [run, step, h, hst, hb, hq, hl, hp, ha, hf, lFree, recovered, skipUnreg, current]
 
 /-- **callbacks_on_loop_thread** (structural): user callbacks (`dispatch`) and `_consume_waker` are steps of the
 loop thread only, taken from inside `_handle_select` -/
@@ -955,6 +1024,32 @@ theorem selected_reports_ready (s s' : St) (a res : Sets) (hs : s.spc = .selecti
     have hm : fd ∈ s.readyR := by simpa using hready
     exact ⟨hfd, by simp [hne, hm]⟩
   · simp at h
+
+/-- **quiescent_select_in_progress** (the rest-state clause of the harness oracle): in a reachable state where the loop
+thread is between callbacks, `close()` has not begun, no `_handle_select` is queued and the selector thread has no enabled
+step, the selector thread is inside `select`.  A rest with no select in progress cannot happen: it would mean that the
+select token is gone and no readiness could ever be dispatched again. -/
+theorem quiescent_select_in_progress (s : St) (hr : Reach s) (hl : s.lpc = .running) (hc : s.closingFlag = false)
+    (hS : ∀ ev, ev.isS = true → step s ev = none) (hQ : s.queue = []) : ∃ a, s.spc = .selecting a := by
+  have ht := token_unique s hr
+  unfold tokens at ht
+  have hne : ¬ (LPc.running = LPc.fresh) := by simp
+  simp only [hl, hQ, hne, ↓reduceIte, List.length_nil, tokL_running] at ht
+  cases hspc : s.spc with
+  | exited =>
+    have := exit_only_after_closing s hr hspc
+    rw [hc] at this; exact absurd this (by simp)
+  | selecting a => exact ⟨a, rfl⟩
+  | selected r =>
+    have := hS (.report r) rfl
+    simp [step, hspc] at this
+  | idle =>
+    rw [hspc] at ht
+    cases ha : s.args with
+    | none => rw [ha] at ht; simp at ht
+    | some a =>
+      have := hS (.take a) rfl
+      simp [step, hspc, hl, hc, ha] at this
 
 /-- **no lost event, safety form** (what the harness's settle phase observes): take a reachable state in which the
 loop thread is between callbacks, owes no wake-up and has not begun to close.  If the system is *quiescent* — the
